@@ -29,9 +29,11 @@ def main():
     scratch = tempfile.mkdtemp(prefix="svseed-", dir="/tmp")
     wt = scratch + "/repo"
     meta = {"id": sid, "property": prop, "confirmed_at": time.strftime("%Y-%m-%dT%H:%M:%SZ", time.gmtime()),
-            "repo_head": sh(["git", "-C", "/repo", "rev-parse", "--short", "HEAD"]).stdout.strip()}
+            "repo_head": sh(["git", "-C", "/repo", "rev-parse", "--short", os.environ.get("SEED_BASE", "HEAD")]).stdout.strip()}
+    if os.environ.get("SEED_NOTE"):
+        meta["note"] = os.environ["SEED_NOTE"]
     try:
-        sh(["git", "-C", "/repo", "worktree", "add", "--detach", "-f", wt, "HEAD"])
+        sh(["git", "-C", "/repo", "worktree", "add", "--detach", "-f", wt, os.environ.get("SEED_BASE", "HEAD")])
         demo_sh = os.path.join(outdir, "demo.sh")
         if os.path.exists(demo_sh):
             # script demonstration: re-run against the scratch worktree through $SV_INCLUDE / $SV_SUPPORT
